@@ -244,7 +244,7 @@ def systematic_rle16():
         return fs
     for kind in ("bg", "fg", "color", "image", "fgbg", "setfgbg", "setfg", "dither"):
         for run in (1, 2, 7, 8, 9, 15, 16, 17, 24, 31, 32, 33, 40, 255, 256, 257, 271, 272, 287, 288, 300):
-            if kind == "image" and run > 40: continue
+            if kind == "image" and run > 40 and run not in (255, 256, 257, 287): continue
             if kind == "dither" and run % 2: continue
             for form in forms(kind, run):
                 o = order(kind, run, form)
